@@ -651,6 +651,7 @@ func main() {
 	seqlen := flag.Int("seqlen", 3, "enumerate all operation sequences up to this length")
 	persistEvery := flag.Int("persist-every", 7, "commit+reload check for every n-th content (0 = off)")
 	transitions := flag.Bool("transitions", true, "check every single Put/Del from every content")
+	states := flag.Bool("states", false, "recompute state roots / storage roots / account leaves of the given statejournal result files (arguments)")
 	big := flag.Int("big", 4, "rounds of big random key sets")
 	bigKeys := flag.Int("bigkeys", 2000, "keys per big round")
 	flag.Parse()
@@ -659,6 +660,10 @@ func main() {
 			harnessErr("%v", p)
 		}
 	}()
+	if *states {
+		statesMain(flag.Args(), *out)
+		return
+	}
 	ck := &checker{viol: []finding{}, drift: []finding{}, shapes: map[string]*node{}, rng: rand.New(rand.NewSource(*seed)), counts: map[string]int{},
 		nontriv: map[string]bool{}, nibAlpha: []int{0, 1, 2}}
 	f, err := os.Open(*shapes)
